@@ -54,15 +54,15 @@ def add_contents_to_tarfile(contents_set, tar_fd, absolute_paths=False):
         t = fsobj_to_tarinfo(x, absolute_paths)
         if t.isreg():
             key = (x.dev, x.inode)
-            existing = inodes.get(key)
+            existing = inodes.get(key) if None not in key else None
             data = None
-            if existing is not None:
-                if x._can_be_hardlinked(existing):
-                    t.type = tarfile.LNKTYPE
-                    t.linkname = "./{}".format(existing.location.lstrip("/"))
-                    t.size = 0
+            if existing is not None and x._can_be_hardlinked(existing):
+                t.type = tarfile.LNKTYPE
+                t.linkname = "./{}".format(existing.location.lstrip("/"))
+                t.size = 0
             else:
-                inodes[key] = x
+                if None not in key:
+                    inodes.setdefault(key, x)
                 data = x.data.bytes_fileobj()
             tar_fd.addfile(t, fileobj=data)
             # tar_fd.addfile(t, fileobj=x.data.bytes_fileobj())
